@@ -78,7 +78,7 @@ func scenC02(e *Env) func() {
 			} else {
 				m.BodyLen = sizes[e.Int(len(sizes))]
 				m.Chunked = e.Chance(35)
-				m.Read = Pick(e, "all", "none", "none", "1", "100", "8192", "postbody", "all")
+				m.Read = Pick(e, "all", "none", "none", "1", "100", "8192", "postbody", "all", "reset", "resetbody", "setbody")
 				m.Resp = Pick(e, "", "", "", "", "", "timeout", "timeout-resp")
 				if p.Hook != "none" && e.Chance(60) {
 					m.Expect = true
@@ -180,6 +180,13 @@ func scenC02(e *Env) func() {
 			var got []byte
 			full := false
 			switch mode {
+			case "reset":
+				// a handler may do anything with its request object, also throw it away
+				ctx.Request.Reset()
+			case "resetbody":
+				ctx.Request.ResetBody()
+			case "setbody":
+				ctx.Request.SetBodyString("replaced")
 			case "none":
 			case "all", "postbody", "":
 				if mode == "all" && ctx.Request.IsBodyStream() {
